@@ -128,20 +128,20 @@ func sendByte(stream uint32, off int64) byte { return byte(int64(stream)*37 + of
 func bodyByte(stream uint32, off int64) byte { return byte(int64(stream)*53 + off*7 + off>>9 + 3) }
 
 type world struct {
-	cfg   config
-	conn  *bubble.H2Conn
-	led   *ledger.Ledger
-	cp    h2wire.Parser // parses what the client sends (so that the ledger sees wire frames only)
-	hs    map[uint32]*hctl
-	hmu   sync.Mutex
-	sc    http2.VerifC12Conn
-	opened int // streams opened by the explored part (index of the next one)
-	base   int // first stream index of the explored part (prelude streams come before)
-	sentBody map[uint32]int64 // body bytes the client has sent per stream
-	viol  []ledger.Violation
-	trace []string
-	keepTrace bool
-	traceCap  int // >0: keep only about this many most recent trace lines
+	cfg                 config
+	conn                *bubble.H2Conn
+	led                 *ledger.Ledger
+	cp                  h2wire.Parser // parses what the client sends (so that the ledger sees wire frames only)
+	hs                  map[uint32]*hctl
+	hmu                 sync.Mutex
+	sc                  http2.VerifC12Conn
+	opened              int              // streams opened by the explored part (index of the next one)
+	base                int              // first stream index of the explored part (prelude streams come before)
+	sentBody            map[uint32]int64 // body bytes the client has sent per stream
+	viol                []ledger.Violation
+	trace               []string
+	keepTrace           bool
+	traceCap            int // >0: keep only about this many most recent trace lines
 	srvIWS, srvMaxFrame int64
 }
 
